@@ -356,7 +356,7 @@ func genC19(r *Rng, tier string) *World {
 		op.Rev = r.P(0.3)
 		op.Collect = Pick(r, []string{"", "", "CollectMap", "SanitizeMapAndCollect"})
 		if r.P(0.3) {
-			op.Opts = append(op.Opts, OptSpec{K: "fmt", Fmt: Pick(r, []string{"stamp", "record"})})
+			op.Opts = append(op.Opts, OptSpec{K: "fmt", Fmt: Pick(r, []string{"stamp", "record", "setparams"})})
 		}
 		return op
 	}
